@@ -335,6 +335,13 @@ def really_changed(path_stmts, local_names=None):
                         # names (imported functions, constants) are not loop state
                         if isinstance(a, ast.Name) and (local_names is None or a.id in local_names):
                             changed.add(a.id)
+                    # an unknown method may change its receiver's state (f.readline(), it.__next__(), q.get())
+                    if isinstance(n.func, ast.Attribute):
+                        root = n.func.value
+                        while isinstance(root, (ast.Attribute, ast.Subscript)):
+                            root = root.value
+                        if isinstance(root, ast.Name) and (local_names is None or root.id in local_names):
+                            changed.add(root.id)
             elif isinstance(n, ast.NamedExpr):
                 changed.update(stored_names(n.target))
         if isinstance(s, ast.Delete):
@@ -395,7 +402,8 @@ def really_changed(path_stmts, local_names=None):
     plain = {nm for nm, s in last_def.items() if not isinstance(s, ast.AugAssign)}
     for nm in plain:
         seen = set()
-        work = [x for x in reads[nm] if x in plain]
+        # a direct self-reference was judged above (it may be a maybe-identity update)
+        work = [x for x in reads[nm] if x in plain and x != nm]
         while work:
             x = work.pop()
             if x == nm:
